@@ -383,7 +383,35 @@ def module_state_rule(repo, modshort, rule="STATE"):
         elif isinstance(p, ast.Attribute) and p.attr in ("append", "extend", "update", "setdefault", "add", "insert", "pop", "clear"):
             out.append(violation(rule, f, role, "module-level `%s` is mutated by `.%s(...)`: later calls observe earlier ones" % (n.id, p.attr), n))
     for f in lru:
-        out.append(unrecognised(rule, f, role, "functools cache on `%s`: key = arguments by hash; re-confirm that arguments are value-hashable" % f.name))
+        # the cached object is shared by every later call with equal arguments: a caller that writes into it changes their result
+        hit = None
+        for g in m.funcs.values():
+            for st in walk_no_nested(g.node):
+                if isinstance(st, ast.Assign) and len(st.targets) == 1 and isinstance(st.targets[0], ast.Name) and isinstance(st.value, ast.Call) \
+                        and isinstance(st.value.func, ast.Name) and st.value.func.id == f.name:
+                    v = st.targets[0].id
+                    for n in walk_no_nested(g.node):
+                        w = None
+                        if isinstance(n, (ast.Subscript, ast.Attribute)) and isinstance(n.ctx, ast.Store):
+                            b = n
+                            while isinstance(b, (ast.Subscript, ast.Attribute)):
+                                b = b.value
+                            if isinstance(b, ast.Name) and b.id == v and n.lineno > st.lineno:
+                                w = n
+                        elif isinstance(n, ast.AugAssign) and isinstance(n.target, ast.Name) and n.target.id == v and n.lineno > st.lineno:
+                            w = n
+                        elif isinstance(n, ast.Call) and isinstance(n.func, ast.Attribute) and isinstance(n.func.value, ast.Name) and n.func.value.id == v \
+                                and (n.func.attr.endswith("_") or n.func.attr in ("append", "extend", "update", "pop", "insert", "clear", "sort", "fill")) and n.lineno > st.lineno:
+                            w = n
+                        if w is not None and hit is None:
+                            hit = (g, v, w)
+        if hit:
+            from .core import named
+            g, v, w = hit
+            out.append(named(rule, g, role, "`%s` is the object cached by `%s` (functools cache) and `%s` writes into it: every later call with the same "
+                             "arguments sees the modification (history dependence)" % (v, f.name, unparse(w)[:50]), w))
+        else:
+            out.append(unrecognised(rule, f, role, "functools cache on `%s`: key = arguments by hash; re-confirm that arguments are value-hashable" % f.name))
     if not out:
         f, n = used[0]
         out.append(holds(rule, f, role, "module-level containers are only read", n, nontrivial=False))
@@ -511,4 +539,41 @@ def _prefix_until_opaque(stmts):
             continue
         else:
             break
+    return out
+
+
+# ------------------------------------------------------------------ x[..., -e:] / x[..., :-e] with a computed e
+def negative_slice_rule(fi, rule="R-SLICE0", ai=None, int_params=()):
+    """A slice bound written `-e` means "e from the end" only for e >= 1: `-0` is `0`, so `x[:-e]` is EMPTY and `x[-e:]` is EVERYTHING when e
+    evaluates to 0.  For every slice bound of that form with a non-constant e, e >= 1 is decided on every path (tensor extents are >= 1)."""
+    from .core import holds, unrecognised
+    from .affine import ge as _ge, Lin as _Lin
+    ai = ai or AbsInt(fi, int_params=set(int_params))
+    pm = parent_map(fi.node)
+    out = []
+    for n in walk_no_nested(fi.node):
+        if not isinstance(n, ast.Subscript):
+            continue
+        sls = n.slice.elts if isinstance(n.slice, ast.Tuple) else [n.slice]
+        for sl in sls:
+            if not isinstance(sl, ast.Slice):
+                continue
+            for which in ("lower", "upper"):
+                b = getattr(sl, which)
+                if isinstance(b, ast.UnaryOp) and isinstance(b.op, ast.USub) and not isinstance(b.operand, ast.Constant):
+                    st_ = n
+                    while st_ in pm and not isinstance(st_, ast.stmt):
+                        st_ = pm[st_]
+                    role = "`%s` in `%s`: the offset from the end is at least 1 on every path (-0 would select %s)" % (
+                        unparse(b), unparse(n)[:50], "nothing" if which == "upper" else "everything")
+
+                    def mk(st, e=b.operand):
+                        v = ai.lin(st, e)
+                        if v is None:
+                            return None
+                        for a in list(v.atoms()) + [a_ for g in st.G for a_ in g.atoms()]:
+                            if ".shape[" in a and "//" not in a:
+                                st.add(_ge(_Lin.atom(a), 1))
+                        return [("offset >= 1", v - 1)]
+                    out.append(decide_states(ai, fi, st_, mk, rule, role))
     return out
